@@ -57,6 +57,13 @@ def make_case(seed):
         opts.pop('--width')
         if '--dark' not in opts and '--light' not in opts:
             opts['--dark'] = True
+    if 'no-ln' in meta['classes'] and rng.random() < 0.5:
+        # line numbers switched off in the configuration (side-by-side = true, line-numbers = false) instead of by empty
+        # formats: the gutters are then built on another path (LineNumbersData::empty_for_sbs)
+        opts.pop('--line-numbers-left-format', None)
+        opts.pop('--line-numbers-right-format', None)
+        opts['--config'] = runner.write_file('c07_noln.gitconfig', '[delta]\n    line-numbers = false\n')
+        meta['classes'] = meta['classes'] + ['no-ln-by-config']
     if rng.random() < 0.5 and str(opts.get('--wrap-max-lines', '2')) in ('unlimited', '∞', 'inf'):
         # (with a finite number of rows delta raises the limit to what those rows can hold plus a margin and cuts there)
         # (with wrapping switched off the maximum line length is the only limit and cuts before the panel edge)
